@@ -99,6 +99,8 @@ def families(tier):
     # expensive transitions and target levels above max_level (10): remaining budgets above 10 inside the search and the cache
     fam['ng2_high'] = (lambda: models_ngram2([0, 6], [0, 5, 6, ABSENT], [0, 1], [3, 4, 5]), 'levels', range(0, 21))
     fam['ng2_high10'] = (lambda: models_ngram2([0, 4], [1, 7, 10, ABSENT], [0], [3, 5]), 'levels', range(0, 31))
+    # long strings whose transitions are all 0 or all 10: the largest reachable sums (10 per transition) and the levels just around them
+    fam['ng2_all10_long'] = (lambda: models_ngram2([0, 10], [0, 10, ABSENT], [0], [6, 7]), 'levels', range(0, 82))
     # histories
     fam['ng2_hist'] = (lambda: models_ngram2([0, 1], [0, 1, 2, ABSENT], [0, 1], [3, 4]), 'pairs')
     if tier == 'thorough':
@@ -125,7 +127,7 @@ def shards(tier):
 
 
 def bounds(tier):
-    return {'families': sorted(families(tier)), 'target_levels': '0..7 (0..20 and 0..30 on the high-level families)', 'alphabet': '{a,b} ({a,b,c} sub-sweep in thorough)',
+    return {'families': sorted(families(tier)), 'target_levels': '0..7 (0..20, 0..30 and 0..81 on the high-level families)', 'alphabet': '{a,b} ({a,b,c} sub-sweep in thorough)',
             'ngram': '2 (3 in thorough)', 'level_values': '{0,1,2,absent} (+10 in ng2_lvl10)',
             'histories': 'fresh optimizer per level; one optimizer over levels ascending and descending; all ordered pairs (L1,L2) in 0..5; L1 paused after every j, L2 run, L1 resumed'}
 
